@@ -90,7 +90,9 @@ contract("abs:make_row_tags", trusted=True, pos_params=["self", "outline_tags", 
          doc="call-site view of make_row_tags in make_scenario_for: a new list that is a function of (outline tags, row, parameters); "
              "what that function is, is the proved contract of ScenarioOutlineBuilder.make_row_tags above")
 TPL = "scenario_template"
-contract(M + "ScenarioOutlineBuilder.make_scenario_for", props=P + ["C02"],
+BGROW = ("row-background-steps-are-row-copies-of-all-the-template's-background-steps-inherited-and-own,"
+         "one-new-step-per-outline-step-in-order,a-new-scenario-whose-parent-is-the-outline")
+contract(M + "ScenarioOutlineBuilder.make_scenario_for", props=P + ["C02", "C12:" + BGROW, "C16:" + BGROW],
          params={"self": "ref:ScenarioOutlineBuilder", "example": "ref:Examples", "row": "ref:Row",
                  "scenario_template": "ref:ScenarioOutline", "params": "dict"},
          self_classes=["ScenarioOutlineBuilder"],
@@ -139,7 +141,7 @@ contract(M + "ScenarioOutlineBuilder.make_scenario_for", props=P + ["C02"],
 # -- the row scenarios are rebuilt exactly when an Examples table changed ---------------------------------------
 MODIFIED = ("exists(lambda k: 0 <= k < len(self.examples) and not is_none(self.examples[k].table) and "
             "as_ref(self.examples[k].table, 'Table').modified)")
-contract(M + "ScenarioOutline._is_any_example_table_modified", props=["C06"], params={"self": "ref:ScenarioOutline"},
+contract(M + "ScenarioOutline._is_any_example_table_modified", props=["C06", "C16", "C14", "C17"], params={"self": "ref:ScenarioOutline"},
          self_classes=["ScenarioOutline"], result="bool", pure=True,
          ensures={"some-examples-table-is-marked-modified": "result == %s" % MODIFIED})
 oracle("built", ["ref", "int"], "val")       # the scenario list the builder produces for the outline (k-th build)
